@@ -198,7 +198,8 @@ func Do(h http.Handler, req *http.Request) *httptest.ResponseRecorder {
 // listener. The server is started lazily.
 func (w *World) GRPC() envoy_auth.AuthorizationClient {
 	w.grpcOnce.Do(func() {
-		w.lis = bufconn.Listen(1 << 20)
+		// (a small buffer: the pipes of a closed connection stay referenced by the deadline timers of the transport for a while)
+		w.lis = bufconn.Listen(1 << 14)
 		w.grpcSrv = grpcv3.VerifNewService(w.Conf, w.Cache, zerolog.Nop(), w.Exec)
 
 		go func() { _ = w.grpcSrv.Serve(w.lis) }()
@@ -232,6 +233,11 @@ func (w *World) Close() {
 
 	if w.grpcSrv != nil {
 		w.grpcSrv.Stop()
+	}
+
+	if w.lis != nil {
+		_ = w.lis.Close()
+		w.lis = nil
 	}
 }
 
